@@ -460,11 +460,321 @@ fn mode_xxz_ladder(seed: u64, thorough: bool) {
     }
 }
 
+// ------------------------------------------------------------------------------------------
+// parladder: mixed ladders, the serial driver versus the rayon driver inside explicit k-worker pools
+// ------------------------------------------------------------------------------------------
+
+/// the f64 `gen_range(0. ..1.0)` makes of one 64-bit word (rand 0.8: 52 mantissa bits)
+fn uniform_of(w: u64) -> f64 {
+    (w >> 12) as f64 / (1u64 << 52) as f64
+}
+
+/// Hamiltonian (edges, transverse, longitudinal, nvars) and beta of every position
+fn ladder_params<Q: Rep>(tc: &TC<Q>) -> Vec<String> {
+    tc.graph_ref().iter().map(|(s, b)| format!("{} beta={}", s.q.describe(), rat(*b))).collect()
+}
+
+fn first_digest_diff<Q: Rep>(a: &TC<Q>, b: &TC<Q>) -> Option<String> {
+    let (sa, sb) = (snaps(a), snaps(b));
+    if sa.len() != sb.len() {
+        return Some(format!("{} vs {} replicas", sa.len(), sb.len()));
+    }
+    for (i, (x, y)) in sa.iter().zip(sb.iter()).enumerate() {
+        let (nx, ny) = (a.graph_ref()[i].0.q.ops().len(), b.graph_ref()[i].0.q.ops().len());
+        if x.state != y.state {
+            return Some(format!("position {}: spin state {} vs {} (n = {} vs {})", i, bits(&x.state), bits(&y.state), nx, ny));
+        }
+        if nx != ny {
+            return Some(format!("position {}: n = {} vs {}", i, nx, ny));
+        }
+        if x.sampler_cutoff != y.sampler_cutoff || x.mgr_cutoff != y.mgr_cutoff {
+            return Some(format!("position {}: cutoff {}/{} vs {}/{}", i, x.sampler_cutoff, x.mgr_cutoff, y.sampler_cutoff, y.mgr_cutoff));
+        }
+        if x.slots != y.slots {
+            return Some(format!("position {}: operator string {} vs {}", i, x.slots, y.slots));
+        }
+        if x.tag != y.tag {
+            return Some(format!("position {}: non-moving fields differ", i));
+        }
+    }
+    None
+}
+
+#[derive(Default)]
+struct ParStats {
+    accepted: u64,
+    accepted_ham_diff: u64,
+    rejected_ham_diff: u64,
+    ties: u64,
+}
+
+/// The exact recomputation: one tempering step that took the ladder from `pre` to `post`, drew `words` from the
+/// container RNG (order word, then one uniform per pair of the first phase, then of the second) and logged `evs`.
+/// The harness replays the step pair by pair on its own copies of the replicas: the exchange probability of a
+/// pair is the exact Metropolis ratio `oracle_ratio` computed from the two operator strings under the two
+/// Hamiltonians / betas (model-independent, c10.rs); the decision the code took (its `swap_graphs` events) must be
+/// `ratio > u` for the pair's own uniform `u` (knife-edge decisions are skipped and counted), and the ladder the
+/// replay ends in must be `post`.
+fn exact_recheck<Q: Rep>(pre: &TC<Q>, post: &TC<Q>, words: &[u64], evs: &[Ev], st: &mut ParStats) -> Result<(), String> {
+    let n = pre.num_graphs();
+    if n < 2 {
+        return Ok(());
+    }
+    if words.len() != n {
+        return Err(format!("the step consumed {} container words, a step of {} replicas draws {} (order + one per pair)", words.len(), n, n));
+    }
+    let mut x: Vec<(Q, f64)> = pre.graph_ref().iter().map(|(s, b)| (s.q.clone(), *b)).collect();
+    let maxc = x.iter().map(|(q, _)| q.get_op_cutoff()).max().unwrap();
+    for (q, _) in x.iter_mut() {
+        q.set_op_cutoff(maxc);
+    }
+    let a_first = words[0] < (1u64 << 63);
+    let pairs_a: Vec<usize> = (0..n / 2).map(|j| 2 * j).collect();
+    let pairs_b: Vec<usize> = (0..(n - 1) / 2).map(|j| 2 * j + 1).collect();
+    let order: Vec<usize> = if a_first { pairs_a.iter().chain(pairs_b.iter()).cloned().collect() } else { pairs_b.iter().chain(pairs_a.iter()).cloned().collect() };
+    let swapped = |l: usize| evs.iter().any(|e| matches!(e, Ev::Swap(p, q) if (*p).min(*q) == l && (*p).max(*q) == l + 1));
+    let mut tie = false;
+    for (j, &l) in order.iter().enumerate() {
+        let u = uniform_of(words[1 + j]);
+        let (lo, hi) = x.split_at_mut(l + 1);
+        let (ga, ba) = &mut lo[l];
+        let (gb, bb) = &mut hi[0];
+        let r = oracle_ratio(&*ga, *ba, &*gb, *bb);
+        let ham_diff = ga.describe() != gb.describe();
+        let did = swapped(l);
+        if (r - u).abs() <= 1e-9 * r.abs().max(u) {
+            tie = true;
+        } else if did != (r > u) {
+            return Err(format!(
+                "pair ({},{}) [{}] was {} with its uniform u = {} but the exact Metropolis ratio recomputed from the two operator strings (n = {} / {}, beta = {} / {}) is {}",
+                l,
+                l + 1,
+                if ham_diff { "different Hamiltonians" } else { "same Hamiltonian" },
+                if did { "EXCHANGED" } else { "not exchanged" },
+                u,
+                ga.ops().len(),
+                gb.ops().len(),
+                ba,
+                bb,
+                r
+            ));
+        }
+        if did {
+            st.accepted += 1;
+            if ham_diff {
+                st.accepted_ham_diff += 1;
+            }
+            ga.swap_graphs(gb);
+        } else if ham_diff {
+            st.rejected_ham_diff += 1;
+        }
+    }
+    if tie {
+        st.ties += 1;
+    }
+    for (i, ((q, _), (p, _))) in x.iter().zip(post.graph_ref().iter()).enumerate() {
+        if snap(q) != snap(&p.q) {
+            return Err(format!("position {}: the ladder after the step is not the pre-step ladder with the logged exchanges applied", i));
+        }
+    }
+    Ok(())
+}
+
+/// One mixed ladder, the serial twin and one rayon twin in a `k`-worker pool, `rounds` rounds of one time step + one
+/// tempering step (lock-step), then the sampling drivers on fresh clones.
+fn par_case(tc0: &TC<IsingQ>, pool: &rayon::ThreadPool, k: usize, tag: &str, g: &mut SplitMix64, rounds: usize) {
+    let n = tc0.num_graphs();
+    let params0 = ladder_params(tc0);
+    let mut st = ParStats::default();
+    let mut oracle: Result<(), String> = Ok(());
+    let mut s = tc0.clone();
+    let mut p = tc0.clone();
+    let mut steps_done = 0usize;
+    for round in 0..rounds {
+        let t = 1 + g.below(2) as usize;
+        let rs = catch(|| s.timesteps(t));
+        let rp = catch(|| pool.install(|| p.parallel_timesteps(t)));
+        if rs.is_err() || rp.is_err() {
+            if rs.is_err() != rp.is_err() {
+                oracle = Err(format!("round {}: time steps panicked in one driver only (serial: {:?}, rayon: {:?})", round, rs.err(), rp.err()));
+            } else {
+                stat("parladder.replica_update_panicked", 1);
+            }
+            break;
+        }
+        if let Some(d) = first_digest_diff(&s, &p) {
+            oracle = Err(format!("round {}: after timesteps({}) / parallel_timesteps({}): {}", round, t, t, d));
+            break;
+        }
+        let wseed = g.next();
+        let (ls, lp) = (new_log(), new_log());
+        set_log(&mut s, &ls);
+        set_log(&mut p, &lp);
+        *s.rng_mut() = RecRng::new(wseed);
+        *p.rng_mut() = RecRng::new(wseed);
+        let (pre_s, pre_p) = (s.clone(), p.clone());
+        let (sw_s, sw_p) = (s.get_total_swaps(), p.get_total_swaps());
+        if let Err(e) = catch(|| s.tempering_step()) {
+            oracle = Err(format!("round {}: tempering_step panicked: {}", round, e));
+            break;
+        }
+        if let Err(e) = catch(|| pool.install(|| p.parallel_tempering_step())) {
+            oracle = Err(format!("round {}: parallel_tempering_step panicked on {} workers: {}", round, k, e));
+            break;
+        }
+        steps_done += 1;
+        let (ws, wp) = (s.rng_mut().take_log(), p.rng_mut().take_log());
+        let (es, ep) = (ls.lock().unwrap().clone(), lp.lock().unwrap().clone());
+        let mut why: Vec<String> = vec![];
+        // (1) the C05-specific part: every exchange decision against the exact ratio, in both drivers
+        let mut dummy = ParStats::default();
+        if let Err(m) = exact_recheck(&pre_p, &p, &wp, &ep, &mut st) {
+            why.push(format!("parallel_tempering_step on {} workers: {}", k, m));
+        }
+        if let Err(m) = exact_recheck(&pre_s, &s, &ws, &es, &mut dummy) {
+            why.push(format!("tempering_step: {}", m));
+        }
+        // (2) the two drivers took the same decisions and reached the same ladder
+        let (ds, dp) = (s.get_total_swaps() - sw_s, p.get_total_swaps() - sw_p);
+        if ds != dp {
+            why.push(format!("tempering_step accepted {} exchanges, parallel_tempering_step on {} workers {}", ds, k, dp));
+        }
+        if ws != wp {
+            why.push(format!("container words consumed: serial {}, rayon {}", ws.len(), wp.len()));
+        }
+        if let Some(d) = first_digest_diff(&s, &p) {
+            why.push(format!("serial vs rayon ladder after the step: {}", d));
+        }
+        // (3) every position keeps its Hamiltonian and its beta
+        for (name, tc) in [("serial", &s), ("rayon", &p)] {
+            let now = ladder_params(tc);
+            if let Some(i) = (0..n).find(|&i| now[i] != params0[i]) {
+                why.push(format!("{}: position {} no longer has its own Hamiltonian / beta: {} (was {})", name, i, now[i], params0[i]));
+            }
+            for (i, (q, _)) in tc.graph_ref().iter().enumerate() {
+                if let Err(m) = replica_sound(&q.q) {
+                    why.push(format!("{}: position {} after the step: {}", name, i, m));
+                    break;
+                }
+            }
+        }
+        if !why.is_empty() {
+            oracle = Err(format!("round {}: {}", round, why.join("; ")));
+            break;
+        }
+    }
+    stat(&format!("parladder.replicas_{}", n), 1);
+    stat(&format!("parladder.workers_{}", k), 1);
+    stat("parladder.steps", steps_done as u64);
+    stat("parladder.exchanges_accepted", st.accepted);
+    stat("parladder.exchanges_accepted_different_hamiltonians", st.accepted_ham_diff);
+    stat("parladder.exchanges_rejected_different_hamiltonians", st.rejected_ham_diff);
+    stat("parladder.steps_with_knife_edge_decision", st.ties);
+    emit(st.accepted > 0, &format!("hist parstep.{}.w{} {} {} 1 1", tag, k, n, steps_done), &format!("{} {}", steps_done, steps_done), Some(oracle));
+
+    // ---- the sampling drivers on fresh clones with the same container words ----
+    let t_total = 6 + g.below(14) as usize;
+    let sf = 1 + g.below(3) as usize;
+    let mf = 1 + g.below(4) as usize;
+    let wseed = g.next();
+    let mut a = tc0.clone();
+    let mut b = tc0.clone();
+    *a.rng_mut() = RecRng::new(wseed);
+    *b.rng_mut() = RecRng::new(wseed);
+    let ra = catch(|| a.timesteps_sample(t_total, sf, mf));
+    let rb = catch(|| pool.install(|| b.parallel_timesteps_sample(t_total, sf, mf)));
+    let input = format!("hist pardrv.{}.w{} {} {} {} {}", tag, k, n, t_total, sf, mf);
+    match (ra, rb) {
+        (Ok(xa), Ok(xb)) => {
+            let (wa, wb) = (a.rng_mut().take_log(), b.rng_mut().take_log());
+            let mut why: Vec<String> = vec![];
+            if a.get_total_swaps() != b.get_total_swaps() {
+                why.push(format!("total_swaps: timesteps_sample {}, parallel_timesteps_sample on {} workers {}", a.get_total_swaps(), k, b.get_total_swaps()));
+            }
+            if wa != wb {
+                why.push(format!("container words consumed: {} vs {}", wa.len(), wb.len()));
+            }
+            if let Some(d) = first_digest_diff(&a, &b) {
+                why.push(format!("final ladder: {}", d));
+            }
+            if xa.len() != xb.len() || xa.iter().zip(xb.iter()).any(|(x, y)| x.0 != y.0) {
+                let i = xa.iter().zip(xb.iter()).position(|(x, y)| x.0 != y.0).unwrap_or(0);
+                why.push(format!("returned samples of position {} differ", i));
+            }
+            if xa.iter().zip(xb.iter()).any(|(x, y)| (x.1 - y.1).abs() > 1e-9 * x.1.abs().max(1.0)) {
+                why.push("returned energies differ".to_string());
+            }
+            for (name, tc) in [("timesteps_sample", &a), ("parallel_timesteps_sample", &b)] {
+                let now = ladder_params(tc);
+                if let Some(i) = (0..n).find(|&i| now[i] != params0[i]) {
+                    why.push(format!("{}: position {} no longer has its own Hamiltonian / beta", name, i));
+                }
+            }
+            let nsw = if n >= 2 { wb.len() / n } else { t_total / sf };
+            let ns = xb.first().map(|x| x.0.len()).unwrap_or(t_total / mf);
+            stat("parladder.driver_total_swaps", b.get_total_swaps());
+            let o = if why.is_empty() { Ok(()) } else { Err(format!("{} workers: {}", k, why.join("; "))) };
+            emit(b.get_total_swaps() > 0 || a.get_total_swaps() > 0, &input, &format!("{} {}", nsw, ns), Some(o));
+        }
+        (Err(_), Err(_)) => stat("parladder.driver_replica_update_panicked", 1),
+        (ra, rb) => emit(
+            true,
+            &input,
+            "panic",
+            Some(Err(format!("one driver panicked, the other did not (serial: {:?}, rayon on {} workers: {:?})", ra.err(), k, rb.err()))),
+        ),
+    }
+}
+
+fn mode_parladder(seed: u64, thorough: bool) {
+    let mut g = SplitMix64::new(seed ^ 0x9a71);
+    let workers: Vec<usize> = if thorough { (1..=8).collect() } else { vec![1, 2, 3, 4] };
+    let pools: Vec<(usize, rayon::ThreadPool)> = workers
+        .iter()
+        .map(|&k| (k, rayon::ThreadPoolBuilder::new().num_threads(k).build().expect("rayon pool")))
+        .collect();
+    let ladders = if thorough { 100 } else { 40 };
+    let rounds = if thorough { 24 } else { 12 };
+    for l in 0..ladders {
+        let n = 2 + (l % 10) as usize;
+        // mixed ladders: every replica its own |J| / Gamma / h and beta (4), the same with runs of repeated
+        // Hamiltonians (5: some neighbouring pairs share a Hamiltonian and differ in beta only, others do not)
+        let kind = if l % 3 == 0 { 4 } else { 5 };
+        let mut specs = ising_ladder(&mut g, n, kind, false);
+        for s in specs.iter_mut() {
+            // neighbouring betas close enough for exchanges to happen
+            s.beta = (3 + g.below(6)) as f64 / 4.0;
+        }
+        let log = new_log();
+        let mut tc = match build_ising(&mut g, &specs, &log) {
+            Ok(t) => t,
+            Err(_) => {
+                stat("parladder.ladder_rejected", 1);
+                continue;
+            }
+        };
+        if equilibrate(&mut tc, &mut g).is_err() {
+            stat("parladder.equilibration_panicked", 1);
+            continue;
+        }
+        let ham_pairs_diff = (0..n - 1).filter(|&i| tc.graph_ref()[i].0.q.describe() != tc.graph_ref()[i + 1].0.q.describe()).count();
+        stat("parladder.ladders", 1);
+        stat("parladder.neighbour_pairs_different_hamiltonians", ham_pairs_diff as u64);
+        stat("parladder.neighbour_pairs_same_hamiltonian", (n - 1 - ham_pairs_diff) as u64);
+        for (k, pool) in &pools {
+            let mut gk = SplitMix64::new(g.next());
+            par_case(&tc, pool, *k, &format!("k{}.l{}", kind, l), &mut gk, rounds);
+        }
+    }
+}
+
 fn main() {
     quiet_panics();
     let a = args();
     let r = catch(|| {
-        if a.mode == "grow" {
+        if a.mode == "parladder" {
+            mode_parladder(a.seed, a.thorough)
+        } else if a.mode == "grow" {
             mode_grow(a.seed ^ 0x505, a.thorough)
         } else if a.mode == "loops" {
             mode_loops(a.seed, a.thorough)
